@@ -6,6 +6,7 @@ import SnowProofs.Lemmas.FlakeRun
 import SnowModel.FlakeStats
 import Mathlib.Tactic.Linarith
 import Mathlib.Tactic.Ring
+import SnowProofs.Lemmas.CNT
 
 namespace Snow.FlakeStatsLemmas
 open Snow Num Snow.Flake Snow.FlakeLemmas Snow.FlakeRun Snow.FlakeStats
@@ -310,5 +311,98 @@ theorem tsol_needs_tnuc {kCN : Nat} (hc : VChain p kCN k vs) (h0 : Fresh (nth vs
       intro hn
       rw [hn] at h
       exact h rfl
+
+
+/-! ### rows of the state matrix and the statistics of vial `i` in a run -/
+
+/-- `X_sigma[i, :]` (when vial `i` is stored): the ice fraction at the start of every step -/
+noncomputable def sigmaRow (inp : Inputs ℝ) (kCN i : Nat) : List ℝ :=
+  (runWith inp kCN).traj.toList.map fun s => (vAt s i).sigma
+
+/-- `X_T[i, :]` -/
+noncomputable def tempRow (inp : Inputs ℝ) (kCN i : Nat) : List ℝ :=
+  (runWith inp kCN).traj.toList.map fun s => (vAt s i).T
+
+/-- vial `i` after the last step: its entries of `stats` -/
+noncomputable def finalV (inp : Inputs ℝ) (kCN i : Nat) : Vial ℝ := vAt (runWith inp kCN).final i
+
+/-- `N_timeSteps` -/
+noncomputable def NN (inp : Inputs ℝ) : Nat := nSteps inp.oc.t_tot inp.p.dt
+
+theorem traj_length (inp : Inputs ℝ) (kCN : Nat) : (runWith inp kCN).traj.toList.length = NN inp := by
+  rw [runWith_traj]; simp [profile_len, NN]
+
+theorem traj_size (inp : Inputs ℝ) (kCN : Nat) : (runWith inp kCN).traj.size = NN inp := by
+  rw [← traj_length inp kCN]; simp
+
+@[simp] theorem sigmaRow_length (inp : Inputs ℝ) (kCN i : Nat) : (sigmaRow inp kCN i).length = NN inp := by
+  simp [sigmaRow, traj_size]
+
+@[simp] theorem tempRow_length (inp : Inputs ℝ) (kCN i : Nat) : (tempRow inp kCN i).length = NN inp := by
+  simp [tempRow, traj_size]
+
+theorem nth_col (inp : Inputs ℝ) (kCN i j : Nat) (hj : j < NN inp) :
+    nth (vtraj inp kCN i) j = vAt ((runWith inp kCN).traj.toList[j]'(by rw [traj_length]; exact hj)) i := by
+  have hl := traj_length inp kCN
+  rw [nth_eq _ j (by rw [vtraj_length]; unfold NN at hj; omega)]
+  simp only [vtraj_eq]
+  rw [List.getElem_append_left (by simp [hl]; exact hj)]
+  simp
+
+theorem sigmaRow_get (inp : Inputs ℝ) (kCN i j : Nat) (hj : j < NN inp) :
+    (sigmaRow inp kCN i)[j]'(by simp; exact hj) = (nth (vtraj inp kCN i) j).sigma := by
+  rw [nth_col inp kCN i j hj]; simp [sigmaRow]
+
+theorem tempRow_get (inp : Inputs ℝ) (kCN i j : Nat) (hj : j < NN inp) :
+    (tempRow inp kCN i)[j]'(by simp; exact hj) = (nth (vtraj inp kCN i) j).T := by
+  rw [nth_col inp kCN i j hj]; simp [tempRow]
+
+theorem nth_final (inp : Inputs ℝ) (kCN i : Nat) : nth (vtraj inp kCN i) (NN inp) = finalV inp kCN i := by
+  have hl := traj_length inp kCN
+  rw [nth_eq _ _ (by rw [vtraj_length]; unfold NN; omega)]
+  simp only [vtraj_eq]
+  rw [List.getElem_append_right (by simp [hl])]
+  simp [hl, finalV]
+
+theorem fresh_start (inp : Inputs ℝ) (kCN i : Nat) (hi : i < inp.nVials) : Fresh (nth (vtraj inp kCN i) 0) := by
+  rw [nth_eq _ 0 (by rw [vtraj_length]; omega), vtraj_zero inp kCN i hi]
+  exact ⟨rfl, rfl, rfl, rfl⟩
+
+/-- `t[k] = k·dt` for `k < N` -/
+theorem timeVec_get (N : Nat) (dt : ℝ) (hdt : 0 < dt) (k : Nat) (hk : k < N) :
+    (timeVec N dt)[k]? = some (timeAt dt k) := by
+  rw [Snow.CNT.timeVec_real N hdt]
+  simp [hk, timeAt]
+
+theorem timeAt_mono (dt : ℝ) (hdt : 0 < dt) (a b : Nat) : timeAt dt a ≤ timeAt dt b ↔ a ≤ b := by
+  simp only [timeAt, ofNat'_real]
+  constructor
+  · intro h
+    have : (a : ℝ) ≤ b := le_of_mul_le_mul_right h hdt
+    exact_mod_cast this
+  · intro h
+    have : (a : ℝ) ≤ b := by exact_mod_cast h
+    exact mul_le_mul_of_nonneg_right this (le_of_lt hdt)
+
+
+/-- first column of vial `i` above `thr`, in terms of its trajectory -/
+theorem row_cross (inp : Inputs ℝ) (kCN i : Nat) (thr : ℝ) (h : never thr (sigmaRow inp kCN i) = false) :
+    crossIdx thr (sigmaRow inp kCN i) < NN inp ∧
+      thr < (nth (vtraj inp kCN i) (crossIdx thr (sigmaRow inp kCN i))).sigma ∧
+      ∀ j, j < crossIdx thr (sigmaRow inp kCN i) → ¬ thr < (nth (vtraj inp kCN i) j).sigma := by
+  obtain ⟨hI, h1, h2⟩ := crossIdx_spec thr _ h
+  have hI' : crossIdx thr (sigmaRow inp kCN i) < NN inp := by simpa using hI
+  refine ⟨hI', ?_, ?_⟩
+  · rw [← sigmaRow_get inp kCN i _ hI']; exact h1
+  · intro j hj
+    have hjN : j < NN inp := by omega
+    rw [← sigmaRow_get inp kCN i j hjN]
+    exact h2 j (by simpa using hjN) hj
+
+theorem row_never (inp : Inputs ℝ) (kCN i : Nat) (thr : ℝ) (h : never thr (sigmaRow inp kCN i) = true) :
+    ∀ j, j < NN inp → ¬ thr < (nth (vtraj inp kCN i) j).sigma := by
+  intro j hj
+  rw [← sigmaRow_get inp kCN i j hj]
+  exact (never_iff thr _).mp h _ (List.getElem_mem _)
 
 end Snow.FlakeStatsLemmas
